@@ -206,6 +206,22 @@ def r19_3(prog, out):
         effs = prog.effects(b.id)
         ups = [e for e in effs if e.kind in ("atomic_rmw", "atomic_store") and any(e.touches(c) for c in counters) and not e.chain]
         if not ups:
+            # a release written as `self.inc(bytes.wrapping_neg(), messages.wrapping_neg())`: the update and the notify are the callee's
+            via = [e for e in effs if e.kind in ("atomic_rmw", "atomic_store") and any(e.touches(c) for c in counters) and e.chain]
+            bi = prog.info(b.id)
+            neg = [bb for bb, t in bi.calls(lambda c: c.path.split("::")[-1] in ("wrapping_neg", "neg", "wrapping_sub", "checked_neg"))]
+            if via and neg:
+                n += 1
+                key = "updater:%s" % prog.short(b.id)
+                callee = via[0].chain[-1][0]
+                ci = prog.info(callee)
+                cn = {e.bb for e in prog.own_effects(callee) if e.touches(cells["notifier"]) and e.kind == "notify_waiters"}
+                if cn and ci.cfg.escapes(0, cn, after=False) is None and bi.cfg.escapes(0, {via[0].bb}, after=False) is None:
+                    out.holds(key, prog.loc(b.id), "releases by adding the negated amounts through %s, which notifies all waiters on every path" % prog.short(callee))
+                else:
+                    out.violation(key, prog.loc(callee), "%s releases capacity through %s, which does not notify on every path: a release that %s judges by its own "
+                                  "(possibly half-updated) view of the two counters wakes nobody, and a parked waiter stays parked although both counts are below "
+                                  "their limits" % (prog.short(b.id), prog.short(callee), prog.short(callee)))
             continue
         n += 1
         bi = prog.info(b.id)
